@@ -83,6 +83,52 @@ def compare(ctx, pid_clause, kind, case, ei, ej, exp, names, obj=None, extra=Non
     return obj, nviol
 
 
+def assembled(ctx, oracle, cases, rng, members, pid):
+    """The same identity where users meet it: the six non-shear components as the package's task list assembles them from AXIAL STRAINS
+    (not yet fractions): all ones (a static table without lattice block), fractions, and rows multiplied by positive factors.  The strain
+    fractions of the statement are e_i = s_i / (s_1 + s_2 + s_3) at every volume."""
+    from cij.core.tasks import PhononContributionTaskList
+    from cij.util import c_
+    keys = [(1, 1), (2, 2), (3, 3), (1, 2), (1, 3), (2, 3)]
+    picks = list(range(0, len(cases), max(1, len(cases) // (6 if len(cases) <= 80 else 60))))
+    for n, ci in enumerate(picks):
+        case = cases[ci]
+        ntv = len(case["v"])
+        e = draw_fractions(rng, ntv)
+        form = ("ones", "fractions", "scaled_rows")[n % 3]
+        raw = numpy.ones((ntv, 3)) if form == "ones" else e if form == "fractions" else e * rng.uniform(0.3, 5.0, (ntv, 1))
+        frac = raw / raw.sum(axis=1, keepdims=True)
+        ctx.count({"assembled": ci, "strain_form": form, "h": float(case["freq"].sum())})
+        duck = DuckCalc(case)
+        try:
+            with warnings.catch_warnings(), numpy.errstate(all="ignore"):
+                warnings.simplefilter("ignore")
+                tl = PhononContributionTaskList(duck)
+                tl.resolve(raw.copy(), [c_(*k) for k in keys])
+                tl.calculate()
+                iso, adi = tl.get_isothermal_results(), tl.get_adiabatic_results()
+        except Exception as ex:
+            ctx.violation(f"task list on axial strains given as {form} raised {ex!r}", {"case": summary(case), "form": form}, {"clause": "assembled_raises", "form": form})
+            continue
+        for (i, j) in keys:
+            kind = "long" if i == j else "offd"
+            exp = oracle.expected(kind, case, frac[:, i - 1], frac[:, j - 1])
+            for nm in members:
+                if nm == "iso":
+                    val, (spec, scale) = numpy.asarray(iso[c_(i, j)], dtype=float), exp["iso"]
+                else:                                   # "gap": adiabatic - isothermal of the assembled components
+                    val, (spec, scale) = numpy.asarray(adi[c_(i, j)], dtype=float) - numpy.asarray(iso[c_(i, j)], dtype=float), exp["gap"]
+                    # (a difference of two published numbers: their rounding, 64 ulp of each, is part of the allowance - it is not relative to the gap)
+                    scale = scale + 64 * numpy.finfo(float).eps / RTOL * (numpy.abs(numpy.asarray(iso[c_(i, j)], dtype=float)) + numpy.abs(numpy.asarray(adi[c_(i, j)], dtype=float)))
+                ok = close(val, spec, scale, RTOL, atol=1e-300)
+                if not numpy.all(ok):
+                    idx, got, want = worst(val, spec, scale)
+                    ctx.violation(f"assembled c{i}{j} ({'isothermal' if nm == 'iso' else 'adiabatic - isothermal'}) from axial strains given as {form}: "
+                                  f"[T={float(case['t'][idx[0]]):g} K, iv={idx[1]}] = {got!r}, the specification with e = s/sum(s) gives {want!r}",
+                                  {"case": case, "raw_strain": raw, "key": [i, j], "form": form}, {"clause": "assembled_" + nm, "form": form, "kind": kind})
+                    break
+
+
 def behaviours(ctx, n, seed):
     """TLC -simulate on the object machine -> list of (kind, reads, cache-after-each-read)."""
     res = must_ok(run_tlc("C01", "C01_sim.cfg", ctx.subdir("tlc_sim"), workers=1, simulate=f"num={n}", depth=8,
@@ -109,9 +155,13 @@ def main(ctx, replay=None):
                        "(spectrum, class, strain pair); distinct by content hash; all non-trivial.  Expected values: TLC normal forms.")
     ctx.assumptions += ["the four differentiation rules of Thermo.tla (calculus facts)", "float evaluation of expm1",
                         "CODATA literals in cv/consts.py (rtol 1e-7)"]
+    prev = None
     for ci, case in enumerate(cases):
         e = draw_fractions(rng, len(case["v"]))
         i, j = rng.choice(3, size=2, replace=False)
+        if case.get("twin") and prev is not None and len(prev[0]) == len(case["v"]):
+            e, i, j = prev                      # a twin keeps the strain fractions of its base too: same cell shape, another material
+        prev = (e, i, j)
         for kind, ei, ej in (("long", e[:, i], e[:, i]), ("offd", e[:, i], e[:, j])):
             ctx.count({"c": ci, "k": kind, "seed": ctx.seed, "h": float(case["freq"].sum())})
             exp = oracle.expected(kind, case, ei, ej)
@@ -131,6 +181,7 @@ def main(ctx, replay=None):
         if ci < 2:
             ctx.sample({"case": summary(case), "strain_pair": [int(i), int(j)]})
 
+    assembled(ctx, oracle, cases, rng, ("iso",), "C01")
     replay_behaviours(ctx, oracle, cases, rng, ("zp", "th", "iso"), check_cache=True)
 
 
